@@ -172,8 +172,9 @@ pub fn run_entry<D: GD>(d: &mut D, instr: Instruction, l: Option<&Val>, r: &Val)
     d.push_instruction(instr, None).map_err(e)?;
     d.push_instruction(Instruction::EndExpression, None).map_err(e)?;
     d.push_instruction(Instruction::EndExpression, None).map_err(e)?;
-    let unit = d.add_unit().map_err(e)?;
-    d.push_value_stack(unit).map_err(e)?;
+    // the current input `$` is a value no operation under test produces: a result that is `$` instead of unit shows
+    let input = d.add_number(garnish_lang_simple_data::SimpleNumber::Integer(424_242)).map_err(e)?;
+    d.push_value_stack(input).map_err(e)?;
     let mut laddr = 0;
     if let Some(l) = l {
         laddr = materialise(d, l).map_err(e)?;
